@@ -17,6 +17,7 @@ structure KSt where
   htlc : Htlc := {}
   pillar : Pillar := {}
   sentinel : Sentinel := {}
+  liquidity : Liquidity := {}
   bals : List (String × Bal) := []       -- per contract
 
 def KSt.bal (s : KSt) (c : String) : Bal := (lookup c s.bals).getD []
@@ -99,6 +100,18 @@ def runSentinel (s : KSt) (n : Names) (m : Method Sentinel) (c : Ctx) : KSt × S
   let r := vmStep m s.sentinel (s.bal "sentinel") c
   ({ (s.setBal "sentinel" r.bal) with sentinel := r.st, names := n }, showResult n r)
 
+def runLiquidity (s : KSt) (n : Names) (m : Method Liquidity) (c : Ctx) : KSt × String :=
+  let r := vmStep m s.liquidity (s.bal "liquidity") c
+  ({ (s.setBal "liquidity" r.bal) with liquidity := r.st, names := n }, showResult n r)
+
+def parseTuples (n : Names) : List String → Option (Names × List (Nat × Nat))
+  | [] => some (n, [])
+  | t :: m :: r => do
+    let (n, t) := n.tok t
+    let (n, rest) ← parseTuples n r
+    pure (n, (t, ← m.toNat?) :: rest)
+  | _ => none
+
 /-- pillar names are interned in the same table as hashes, with a prefix that no hash has -/
 def Names.pname (n : Names) (name : String) : Names × Nat := n.hash ("name:" ++ name)
 def Names.pnameOf (n : Names) (i : Nat) : String := ((n.hashes.getD i "name:?").drop 5).toString
@@ -174,6 +187,13 @@ def kCall (s : KSt) (n : Names) (h : Head) (args : List String) : Option (KSt ×
   | "pillar", "Delegate", [name, ok] => do
     let (n, name) := n.pname name
     some (runPillar s n (delegate name (← parseBool ok)) h.ctx)
+  | "liquidity", "LiquidityStake", [d] => do
+    some (runLiquidity s n (liquidityStake s.P (← d.toInt?)) h.ctx)
+  | "liquidity", "CancelLiquidityStake", [id] =>
+    let (n, id) := n.hash id
+    some (runLiquidity s n (cancelLiquidityStake id) h.ctx)
+  | "liquidity", "BurnZnn", [a] => do
+    some (runLiquidity s n (liquidityBurnZnn (← a.toNat?) true) h.ctx)
   | "sentinel", "DepositQsr", [] => some (runSentinel s n sentinelDeposit h.ctx)
   | "sentinel", "WithdrawQsr", [] => some (runSentinel s n sentinelWithdraw h.ctx)
   | "sentinel", "Register", [] => some (runSentinel s n (registerSentinel s.P) h.ctx)
@@ -215,6 +235,9 @@ def contractStep (s : KSt) : List String → Option (KSt × String)
     let (n, backer) := s.names.addr backer
     let (n, name) := n.pname name
     some ({ s with names := n, pillar := { s.pillar with delegations := put backer name s.pillar.delegations } }, "ok")
+  | "K-liq-tuples" :: rest => do
+    let (n, ts) ← parseTuples s.names rest
+    pure ({ s with names := n, liquidity := { s.liquidity with tuples := ts } }, "ok")
   | "K-call" :: rest => do
     let (n, h, args) ← parseHead s.names rest
     kCall s n h args
@@ -284,6 +307,13 @@ def contractStep (s : KSt) : List String → Option (KSt × String)
   | ["K-digest", "qsr-pillar"] => some (s, s!"{s.pillar.deposits.length} {depositsTotal s.pillar.deposits}")
   | ["K-digest", "sentinel"] => some (s, s!"{s.sentinel.entries.length} {total (·.znn) s.sentinel.entries} {total (·.qsr) s.sentinel.entries}")
   | ["K-digest", "qsr-sentinel"] => some (s, s!"{s.sentinel.deposits.length} {depositsTotal s.sentinel.deposits}")
+  | ["K-lstake", owner, id] =>
+    let (n, owner) := s.names.addr owner
+    let (n, id) := n.hash id
+    match lookup (owner, id) s.liquidity.entries with
+    | none => some ({ s with names := n }, "none")
+    | some e => some ({ s with names := n }, s!"{e.amount} {n.tokName e.tok} {e.weighted} {e.start} {e.revoke} {e.expiration}")
+  | ["K-digest", "liquidity"] => some (s, s!"{s.liquidity.entries.length} {total (·.amount) s.liquidity.entries}")
   | ["K-digest", "htlc"] => some (s, s!"{s.htlc.entries.length} {s.htlc.proxy.length}")
   | ["K-digest", "plasma"] =>
     some (s, s!"{s.plasma.fusions.length} {s.plasma.owed} {s.plasma.fused.length} {total id s.plasma.fused}")
